@@ -49,24 +49,24 @@ impl Prop for C11 {
         vec!["blinding values on real curves are seeded streams; all values only on the tiny field".into()]
     }
     fn bound(&self, tier: Tier) -> String {
-        format!("n<={}, all t, every target x every helper set; tiny q in {{7,11}} |H|<={}", tier.pick(5, 6), tier.pick(3, 4))
+        format!("n<={}, all t, every target x every helper set; tiny q in {{7,11}} |H|<={}", tier.pick(6, 8), tier.pick(3, 4))
     }
     fn required_counters(&self) -> Vec<&'static str> {
         vec!["repairs_existing", "repairs_new_id", "refusals", "tiny_blinding_vectors"]
     }
     fn cases(&self, tier: Tier, seed: u64) -> Vec<Value> {
         let mut out = vec![];
-        let nmax = tier.pick(5u16, 6u16);
+        let nmax = tier.pick(6u16, 8u16);
         for (n, t) in super::c01::shapes(nmax) {
             if n < 3 && t == n {
                 // n=2,t=2: helpers must exclude the target -> only new-id repair possible; keep
             }
             for suite in REAL_SUITES {
-                if suite == "ed448" && n > tier.pick(4, 5) {
+                if suite == "ed448" && n > tier.pick(5, 6) {
                     continue;
                 }
                 for idkind in [IdKind::Seq, IdKind::U16x, IdKind::Derived] {
-                    if tier == Tier::Quick && n == 5 && idkind == IdKind::Derived {
+                    if tier == Tier::Quick && n >= 5 && idkind == IdKind::Derived {
                         continue;
                     }
                     for src in [KeySrc::Dealer, KeySrc::Dkg] {
